@@ -15,7 +15,7 @@
 -/
 import LiquidModel.Drv.Codec
 import LiquidModel.Spec.C11
-namespace Liquid.Drv
+namespace Liquid.Drv.C11
 open Liquid Liquid.Codec Liquid.C11
 
 structure ApiOb where
@@ -206,4 +206,4 @@ def c11Op (args : List String) : String :=
       | some (s, []) => s
       | _ => "bad-op c11 " ++ kind
 
-end Liquid.Drv
+end Liquid.Drv.C11
